@@ -110,7 +110,7 @@ VARIANTS_HELD_IN_SETUP = _case(
 
 # two variants WITHOUT anything that holds them, the workers held at the very start of the two test tasks: the strategy
 # decides which variant fires its first event first.  fifo and lifo release in opposite orders, so whatever order the two
-# workers reached the gate in, one of the two cases starts `t_2` before `t_1` (finding N5, repaired by TBD-N5: the variants
+# workers reached the gate in, one of the two cases starts `t_2` before `t_1` (finding N5, repaired by 5c8e858: the variants
 # used to share one rank and the report listed them in arrival order; a regression must be caught with this input first)
 def _start_order(strategy):
     c = _case(_p([_s("s0", [_t("t_1", [], [_LOG]), _t("t_2", [], [_LOG])])]), _cfg(2, strategy),
